@@ -10,15 +10,19 @@ import (
 
 // lenOfAtom builds the guard atom "len(x) REL y".
 func lenOfAtom(x ssa.Value, isY func(ssa.Value) bool, rel string) core.Atom {
-	x = core.Strip(x)
+	x = core.Forward(core.Strip(x))
+	same := func(a ssa.Value) bool {
+		a = core.Strip(a)
+		return a == x || core.Forward(a) == x
+	}
 	return cmpAtom(func(v ssa.Value) bool {
 		if c, ok := isBuiltinCall(v, "len"); ok {
-			return core.Strip(c.Call.Args[0]) == x
+			return same(c.Call.Args[0])
 		}
 		// int64(len(x)) etc.
 		if cv, ok := v.(*ssa.Convert); ok {
 			if c, ok := isBuiltinCall(cv.X, "len"); ok {
-				return core.Strip(c.Call.Args[0]) == x
+				return same(c.Call.Args[0])
 			}
 		}
 		return false
